@@ -84,6 +84,7 @@ type propMeta struct {
 	Assumptions []string `json:"assumptions"`
 	Race        bool     `json:"race"`
 	Exhaustive  bool     `json:"exhaustive"`
+	Required    []string `json:"required"`
 }
 
 type knownFinding struct {
@@ -546,6 +547,7 @@ func report(id, tier string, seed int64, meta *propMeta, results, raceResults []
 		"seeded_budget_done":     completed,
 		"race_build_evaluations": raceEvals,
 		"known_finding_hits":     knownHits,
+		"required_strata":        meta.Required,
 		"workers":                len(results),
 	}
 	if meta.Exhaustive && sweepDone {
@@ -571,6 +573,19 @@ func report(id, tier string, seed int64, meta *propMeta, results, raceResults []
 		fmt.Fprintln(os.Stderr, "no evaluations were run")
 		return 2
 	}
+	// coverage self-check: every stratum the check is built around was reached
+	if exit == 0 && evals >= 5000 {
+		var missing []string
+		for _, name := range meta.Required {
+			if probes[name] == 0 && faults[name] == 0 {
+				missing = append(missing, name)
+			}
+		}
+		if len(missing) > 0 {
+			fmt.Fprintf(os.Stderr, "COVERAGE SELF-CHECK FAILED for %s: never reached %v - the generator no longer produces what the check is built around\n", id, missing)
+			return 2
+		}
+	}
 	return exit
 }
 
@@ -591,7 +606,7 @@ func replay(args []string) int {
 	os.MkdirAll(work, 0o755)
 	defer os.RemoveAll(work)
 	bin := filepath.Join(work, "sim.test")
-	race := f.Rule == "C20.race" 
+	race := f.Rule == "C20.race"
 	if err := build(race, bin); err != nil {
 		die(2, "%v", err)
 	}
